@@ -25,8 +25,11 @@ RULES = {
     "R4": "ownership provenance: every value a deserialized graph takes ownership of (the inputs / outputs / "
     "initializers handed to the Graph constructor) is created in that function or looked up in the graph's OWN scope "
     "table - never obtained from a scan of the scope stack, which would make a subgraph own a value of an enclosing graph",
+    "R5": "one resolution order for names (shared rule S2): every scan of the deserializer's scope stack lets the innermost "
+    "binding win, so the value a sharding reference resolves to is the value the node's own input of that name resolves "
+    "to - otherwise a (malformed) model with a shadowed name yields an IR whose reference links disagree",
 }
-FLOORS = {"R1": 45, "R2": 6, "R3": 5, "R4": 5}
+FLOORS = {"R1": 45, "R2": 6, "R3": 5, "R4": 5, "R5": 2}
 EXPLANATION = (
     "Effect summaries (file-system primitives through the resolved call graph) for the deserialization entry set and "
     "the cheap tensor accessors; a sub-term analysis of every recursive call edge of the deserializer; dominator "
@@ -326,3 +329,13 @@ def run(ctx):
     rule_r2(ctx, ef)
     rule_r3(ctx)
     rule_r4(ctx)
+    from ..shared import scope_precedence_sites
+
+    n5 = 0
+    for f, node, form, winner in scope_precedence_sites(ctx.repo):
+        n5 += 1
+        ctx.check("R5", f"{f.local}: {form}", winner == "inner", f, node,
+                  f"{form}: the OUTER scope's binding wins here while node inputs resolve innermost-first: for a shadowed name the IR links a "
+                  "sharding spec to a value that is not an input/output of its node",
+                  how="stack order is outer→inner; form of the scan classified (direction × first-hit/last-write)", construct=form)
+    ctx.require(n5 >= 2, "scope stack scans of the deserializer not found")
